@@ -540,22 +540,39 @@ pub fn guarded<T>(f: impl FnOnce() -> T) -> Result<T, String> {
 	}
 }
 
-/// Strip digits/hex blobs so that a message can be used inside a signature.
+/// Strip numbers and hex blobs so that a message can be used inside a signature.
 pub fn canon(s: &str) -> String {
+	let cs: Vec<char> = s.chars().collect();
 	let mut out = String::new();
-	let mut last_hash = false;
-	for c in s.chars() {
-		if c.is_ascii_digit() || (c.is_ascii_hexdigit() && last_hash) {
-			if !last_hash {
+	let mut i = 0;
+	while i < cs.len() {
+		// a run of hex digits: a blob if it is long (>= 6) or purely decimal
+		if cs[i].is_ascii_hexdigit() && (i == 0 || !cs[i - 1].is_ascii_alphanumeric()) {
+			let mut j = i;
+			while j < cs.len() && cs[j].is_ascii_hexdigit() {
+				j += 1;
+			}
+			let run: String = cs[i..j].iter().collect();
+			let boundary = j == cs.len() || !cs[j].is_ascii_alphanumeric();
+			if boundary && (run.chars().all(|c| c.is_ascii_digit()) || run.len() >= 6) {
+				if !out.ends_with('#') {
+					out.push('#');
+				}
+				i = j;
+				continue;
+			}
+		}
+		if cs[i].is_ascii_digit() {
+			if !out.ends_with('#') {
 				out.push('#');
 			}
-			last_hash = true;
-		} else {
-			last_hash = false;
-			out.push(c);
+			i += 1;
+			continue;
 		}
+		out.push(cs[i]);
+		i += 1;
 	}
-	out.chars().take(160).collect()
+	out.chars().take(200).collect()
 }
 
 #[cfg(test)]
@@ -569,6 +586,6 @@ mod tests {
 		let mut r2 = Rng::new(7);
 		assert_eq!(r.next(), r2.next());
 		assert!(r.below(10) < 10);
-		assert_eq!(canon("seed 123 id abcdef"), "seed # id abcdef");
+		assert_eq!(canon("seed 123 id abcdef01 x.rs:77"), "seed # id # x.rs:#");
 	}
 }
